@@ -107,9 +107,10 @@ type Task struct {
 	Log      []Event
 	step     uint64
 	sub      int
-	depth    int // provider-call nesting
-	NoYield  int // >0: hooks and harness yields are suppressed
-	Req      int // current request id, for events written by callbacks
+	depth    int      // provider-call nesting
+	nested   []uint64 // objects the provider borrowed from itself during a call (task-private ledger)
+	NoYield  int      // >0: hooks and harness yields are suppressed
+	Req      int      // current request id, for events written by callbacks
 	Escaped  interface{}
 	EscStack string
 	Counts   map[string]int
